@@ -21,7 +21,7 @@ func init() {
 		Rules: []RuleDef{
 			{ID: "C03.R1", Text: "document handler → deliver → listener → forwarder → ConsumeEvent is a chain of plain synchronous calls (no go/defer hop, no channel, select, timer)", Run: c03r1},
 			{ID: "C03.R2", Text: "exactly once: handler delivers ⇔ canForward ∧ ¬skip ∧ inSnapshot; deliver→listener once ⇔ ¬closed; listener arm→forwarder once; forwarder→ConsumeEvent(payload) once ⇔ ¬IsMetadata", Run: c03r2},
-			{ID: "C03.R3", Text: "filters: isBeforeSkipWindow ⇔ SkipUntil≠nil ∧ SkipUntil.After(eventTime); convertToCollectionName returns the configured entry or \"_default\"", Run: c03r3},
+			{ID: "C03.R3", Text: "filters: IsMetadata ⇔ key has one of the two reserved prefixes (C14.R2); isBeforeSkipWindow ⇔ SkipUntil≠nil ∧ SkipUntil.After(eventTime); convertToCollectionName returns the configured entry or \"_default\"", Run: c03r3},
 			{ID: "C03.R4", Text: "wrapper literals embed the handler's own event copy; Offset.SeqNo/CollectionName/EventTime derive from that event; no field of a gocbcore event or of an offset is written in place", Run: c03r4},
 			{ID: "C03.R5", Text: "types emitted by the observer = listener type-switch arms ∪ {gocbcore.DcpSnapshotMarker, gocbcore.DcpOSOSnapshot}", Run: c03r5},
 		},
@@ -156,6 +156,7 @@ func c03r2(c *Ctx, id string) {
 	c03DeliverOAE(c, id, oi)
 	// the gate predicate itself: canForward = isControl ∨ ¬needCatchup, filter state touched by data events only
 	gateOAE(c, id, oi)
+	gateArgsRule(c, id, oi)
 	// listener arms
 	lts := listenerTargets(c, id, oi)
 	fws := forwarders(w)
@@ -213,6 +214,32 @@ func c03r2(c *Ctx, id string) {
 		for _, k := range docKinds {
 			c.Check(arms[k] == 1, id, "listener-arm:"+k+"@"+fname(lt), lt.Pos(), "document arm forwards exactly once", fmt.Sprintf("document arm %s forwards %d times", k, arms[k]))
 		}
+		// no undocumented filter in the listener: a forward is conditional on the event's type only
+		allInstrs(lt, func(in ssa.Instruction) {
+			cc := callOf(in)
+			if cc == nil {
+				return
+			}
+			isF := false
+			for _, f := range fws {
+				if cc.StaticCallee() == f {
+					isF = true
+				}
+			}
+			if !isF {
+				return
+			}
+			var extra []string
+			for _, g := range guardsOf(in.Block()) {
+				if ex, ok := g.Cond.(*ssa.Extract); ok {
+					if _, isTA := ex.Tuple.(*ssa.TypeAssert); isTA {
+						continue
+					}
+				}
+				extra = append(extra, fmt.Sprintf("%v:%s", g.Branch, w.Origin(g.Cond)))
+			}
+			c.Check(len(extra) == 0, id, "listener-filter@"+fname(lt), in.Pos(), "forwarding depends on the event type only", "the listener forwards a document event only under "+strings.Join(extra, " ∧ ")+" — an undocumented filter (events arriving in that state are dropped)")
+		})
 	}
 	// forwarder
 	for _, fw := range fws {
@@ -285,6 +312,8 @@ func c03r2(c *Ctx, id string) {
 func c03r3(c *Ctx, id string) {
 	w := c.W
 	oi := observerInfo(c, id)
+	// the reserved-key filter removes exactly the keys under the two reserved prefixes (same rule as C14.R2)
+	c14r2(c, id)
 	// isBeforeSkipWindow
 	sw := oi.skipWin
 	c.see(sw)
